@@ -484,14 +484,19 @@ def r10_12(ctx):
     n = 0
     for cname in ("SamplingMethod", "DirectCollocation"):
         f = P.own_method(cname, "set_initial")
-        for t in [x for x in ast.walk(f.node) if isinstance(x, (ast.If, ast.IfExp))]:
+        class _T:
+            def __init__(self, test):
+                self.test = test
+        tests = [x for x in ast.walk(f.node) if isinstance(x, (ast.If, ast.IfExp))] + \
+                [_T(x.value) for x in ast.walk(f.node) if isinstance(x, ast.Assign) and isinstance(x.value, (ast.BoolOp, ast.Compare))]
+        for t in tests:
             txt = ast.unparse(t.test).replace(" ", "")
-            if "numel()*self.N" in txt.replace("(self.N)", "self.N") and "value.numel()" in txt:
+            if "numel()" in txt and "self.N" in txt and "value.numel()" in txt:
                 n += 1
                 ok = ".shape" in txt and ("value.shape!=" in txt or "!=value.shape" in txt or "notvalue.shape==" in txt)
                 ctx.check(ok, "%s.set_initial: the per-interval-array test excludes a value of the symbol's own shape" % cname,
                           detail="N = 1: a constant guess for a row-vector symbol is taken for an array with one column per interval and broadcast entry by entry",
-                          expected="value.shape != target.shape and (numel(target)*N == numel(value) or numel(target)*(N+1) == numel(value))", found=ast.unparse(t.test)[:120], fi=f, node=t)
+                          expected="value.shape != target.shape and (numel(target)*N == numel(value) or numel(target)*(N+1) == numel(value))", found=ast.unparse(t.test)[:120], fi=f)
     if n < 4:
         raise AnalysisError("R10.12: only %d per-interval-array tests found in the set_initial functions (expected 4)" % n)
 
